@@ -464,3 +464,5 @@ META = {
 }
 
 META['explanation'] += ' ' + 'Further: the OMEN model is read-only while generating and none of its lists is ordered by a set (saved positions are indexes into them); call sites of omen_generate_guesses are followed by a quit test.'
+
+META['explanation'] += ' ' + 'Round 13: no save between create_guesses and the next pop.'
